@@ -27,21 +27,24 @@ def global_view(ctx):
     for m in subsets(peers):
         if not m:
             continue
-        for d in subsets(m):
-            if len(d) == len(m):
-                continue
-            for inp in (True, False):
-                for ev in (True, False):
-                    for a in subsets(m):
-                        if ev and a:
-                            continue
-                        if not ev and inp and not a:
-                            continue
-                        if not inp and (ev or a):
-                            continue
+        for inp in (True, False):
+            for ev in (True, False):
+                # allocations may name peers that are no longer members (re-pinning disabled / not yet done)
+                for a in subsets(peers):
+                    if ev and a:
+                        continue
+                    if not ev and inp and not a:
+                        continue
+                    if not inp and (ev or a):
+                        continue
+                    for d in subsets(sorted(set(m) | set(a))):
+                        if not (set(m) - set(d)):
+                            continue        # some member must answer
                         allsits.append((m, d, inp, ev, a))
     rng.shuffle(allsits)
-    pick = allsits if not ctx.quick() else allsits[:60]
+    departed = [x for x in allsits if set(x[4]) - set(x[0])]
+    rest = [x for x in allsits if not (set(x[4]) - set(x[0]))]
+    pick = allsits if not ctx.quick() else rest[:60] + departed[:30]
     for (m, d, inp, ev, a) in pick:
         sits.append({"members": m, "everywhere": ev, "allocs": a, "down": d, "inpinset": inp,
                      "report": {p: rng.choice(["pinned", "pin_error", "pinning"]) for p in peers}})
@@ -69,7 +72,11 @@ def global_view(ctx):
     for i in v["knowndev"][:1]:
         ctx.violation("C06:global:statusall:unreachable-nonallocated-member-is-cluster_error",
                       "StatusAll reports an unreachable member that is not allocated as cluster_error instead of remote", recs[i - 1])
-    drift = [i for i in v["drift"] if i not in v["bad"] and i not in v["knowndev"]]
+    for i in v.get("knowndev2", [])[:1]:
+        ctx.violation("C06:global:statusall:allocated-peer-no-longer-member-is-missing",
+                      "StatusAll asks members only: a peer the pin is still allocated to but that left the peerset does not "
+                      "appear (the statement lists allocated peers with their report or cluster_error)", recs[i - 1])
+    drift = [i for i in v["drift"] if i not in v["bad"] and i not in v["knowndev"] and i not in v.get("knowndev2", [])]
     if drift:
         print("SPEC-DRIFT: %d cluster-wide views satisfy the statement but differ from the transcription of "
               "globalPinInfoCid/globalPinInfoSlice (first: %s)" % (len(drift), json.dumps(recs[drift[0] - 1])), flush=True)
